@@ -66,7 +66,7 @@ RULE = ("non-trivial: line/setters cases inside the guard of C06_line_roundtrip;
 TRUSTED = [
     "translator harness/cmd/translate phout (field keys compiled from /repo through the verif hook; go/ast pattern over cli.awaitPandoraTermination for gen_cli_signal_waits)",
     "extraction: ExtrOcamlBasic only; OCaml driver ocaml/C06/main.ml + ocaml/common/conv.ml (zarith for decimal I/O; sample-of-id function duplicated from the Go harness; lazy-receive schedule reconstruction for trace acceptance)",
-    "correspondence harness harness/cmd/hC06: verif hook netsample.VerifAppendPhout/VerifNewSample, real netsample.NewPhout / aggregator.NewJSONLinesAggregator / NewEncoderAggregator on afero MemMapFs, real engine.Engine, pandora-verif subprocess (cli.Run + test gun with unbuffered side log)",
+    "correspondence harness harness/cmd/hC06: verif hook netsample.VerifAppendPhout/VerifNewSample, real netsample.NewPhout / aggregator.NewJSONLinesAggregator / NewEncoderAggregator on afero MemMapFs, real engine.Engine, pandora-verif subprocess (cli.Run + test gun with unbuffered side log); for results on a shared stream os.Stdout / os.Stderr are pointed at a scratch file while the aggregator is built; fault-injecting file systems (stalling, failing after n bytes, read-only)",
     "modelled, not verified: Go channel/select/context semantics as atomic events; bufio, jsoniter, afero, the kernel's file semantics and signal delivery; I/O errors of the destination are outside the model",
 ]
 ASSUME = [
